@@ -31,7 +31,36 @@ def canon(k, v):
         return ("s", v or "")
     if k == "bool":
         return ("i", 1 if v in ("true", "1") else 0)
+    if k in ("float", "float32", "dec"):
+        try:
+            return ("f", float(v))
+        except ValueError:
+            pass
     return ("o", k, v)
+
+
+def go_g(x):
+    """Go's fmt %v of a float64: shortest digits, %e form when the decimal exponent is < -4 or >= 6 (shortest => eprec 6)"""
+    import decimal
+    if x == 0:
+        return "0"
+    sign, digits, exp = decimal.Decimal(repr(float(x))).as_tuple()
+    digits = list(digits)
+    while len(digits) > 1 and digits[-1] == 0:
+        digits.pop()
+        exp += 1
+    dp = len(digits) + exp            # position of the decimal point
+    e = dp - 1
+    ds = "".join(map(str, digits))
+    if e < -4 or e >= 6:
+        out = ds[0] + ("." + ds[1:] if len(ds) > 1 else "") + "e%s%02d" % ("+" if e >= 0 else "-", abs(e))
+    elif dp <= 0:
+        out = "0." + "0" * (-dp) + ds
+    elif dp >= len(ds):
+        out = ds + "0" * (dp - len(ds))
+    else:
+        out = ds[:dp] + "." + ds[dp:]
+    return ("-" if sign else "") + out
 
 
 def canon_tv(tv):          # fakedb TaggedValue / atrun Val / journal arg: {"k":..,"v":..}
@@ -49,6 +78,9 @@ def coq_value(c):
         return "VInt %d%%Z" % c[1] if c[1] >= 0 else "VInt (%d)%%Z" % c[1]
     if c[0] == "s":
         return "VStr " + coq_hex(c[1])
+    if c[0] == "f":
+        # a float key is carried as the text Go's %v prints for it (VDec renders as its text)
+        return "VDec " + coq_hex(go_g(c[1]).encode().hex())
     return "VBytes " + coq_hex((json.dumps(c[1:])).encode().hex())
 
 
